@@ -1,5 +1,6 @@
 """C08 — annotations are inherited faithfully by the assembled plasmid"""
 import asm
+import core
 import gen
 import impl
 from wire import CRec, Feat, feats_to_json, feats_from_json, positions
@@ -113,8 +114,8 @@ def check_case(ctx, case):
             missing = [e for e in exp if e not in got][:2]
             ctx.fail("inherited features differ from the positional expectation: unexpected {} ; missing {}".format(
                 extra, missing), case)
-    if ctx.evaluations % 3 == 0:
-        asm.lifecycle(ctx, {k: v for k, v in case.items() if k != "meta"}, edit=True)
+    if core.pick(case, 3):
+        asm.lifecycle(ctx, case, edit=True)
     ctx.note("kept", kept)
     ctx.note("dropped", dropped)
     ctx.case({k: v for k, v in case.items() if k != "meta"}, nontrivial=kept > 0 and dropped > 0)
